@@ -184,8 +184,12 @@ integer_class step(const unsigned long &n, const integer_class &i,
 bool positive_root(integer_class &res, const integer_class &i,
                    const unsigned long n)
 {
-    integer_class x
-        = 1; // TODO: make a better starting guess based on (number of bits)/n
+    // start just above the root: 2**(floor(log2(i) / n) + 1).  Starting from 1
+    // the first step jumps to about i / n and the descent from there takes
+    // about n * log(i) iterations on numbers of n * log2(i) bits (minutes for a
+    // 256-bit i and n around 250, as in mp_perfect_power_p).
+    integer_class x = integer_class(1)
+                      << (boost::multiprecision::msb(i) / n + 1);
     integer_class y = step(n, i, x);
     do {
         x = y;
